@@ -30,7 +30,7 @@ CORE_KINDS = [
 ]
 EXT_KINDS = [
     "self-dispatch-subclass", "self-dispatch-noinit-subclass", "self-dispatch-explicit-init-subclass",
-    "self-dispatch-chained-subclass", "diamond-init", "diamond-class-attr", "super-init", "super-method", "explicit-base-init", "closure-captured", "default-param", "staticmethod",
+    "self-dispatch-chained-subclass", "self-dispatch-indirect-entry-subclass", "diamond-init", "diamond-class-attr", "super-init", "super-method", "explicit-base-init", "closure-captured", "default-param", "staticmethod",
     "classmethod", "lambda", "class-attr-method", "diamond-method", "stored-list-append", "callback-star-args",
     "callback-kwargs", "callback-star-call",
 ]
@@ -147,7 +147,9 @@ class Gen:
         self.mods = []
         self.ents = []
         self.stepped = {}        # "kind/via" -> count
-        self.self_calls = []     # {"line": Line, "cls": lexical class, "name": method name}
+        self.self_calls = []     # {"line": Line, "cls": lexical class, "name": method name, "method": enclosing method}
+        self.frozen_names = set()   # method names that must not become targets of further self-calls (see below)
+        self.indirect_entries = set()   # (id(definer class), method name) entered as K.m(o, x) or through a bound-method value
         self.size = size
         self.no_classes = no_classes      # step-over for the --enable-p2 finding: programs without any class
 
@@ -363,7 +365,7 @@ class Gen:
 
     def def_ho(self, mod):
         """higher-order functions: the call line of the callback is labelled here."""
-        flavour = self.ch.pick(["pos", "pos", "pos", "kw", "kw", "kw", "bm", "bm", "default", "pos2", "cls", "star", "kwargs",
+        flavour = self.ch.pick(["pos", "pos", "pos", "kw", "kw", "kw", "bm", "bm", "bm", "default", "pos2", "cls", "cls", "cls", "star", "kwargs",
                                 "kwonly", "starcall", "kwcall"])
         if flavour in ("bm", "cls") and self.no_classes:
             flavour = "pos"
@@ -684,6 +686,8 @@ class Gen:
         if bases and names and self.any_avoided(self.self_dispatch_kinds(bases, names, self.init_info(e)[1])):
             blocked = self.self_called_names(bases)
             names = [n for n in names if n not in blocked]
+        if bases:
+            self.self_dispatch_kinds(bases, names, self.init_info(e)[1], freeze=True)
         init_kind = self.init_info(e)[1]
         for n in names:
             flav = "plain"
@@ -751,7 +755,8 @@ class Gen:
         cls = sc.self_cls
         r = self.ch.int(0, 9)
         if r < 6:
-            smaller = [n for n in self.method_names(cls) if n in METHOD_NAMES and n < sc.method_name]
+            smaller = [n for n in self.method_names(cls) if n in METHOD_NAMES and n < sc.method_name
+                       and n not in self.frozen_names]
             smaller = [n for n in smaller if self.find_method(cls, n)[0].methods[n]["flavour"] == "plain"]
             if smaller:
                 n = self.ch.pick(smaller)
@@ -880,7 +885,7 @@ class Gen:
             involved.update(id(k) for k in self.mro(c))
         return {r["name"] for r in self.self_calls if id(r["cls"]) in involved}
 
-    def self_dispatch_kinds(self, new_bases, new_names, init_kind):
+    def self_dispatch_kinds(self, new_bases, new_names, init_kind, freeze=False):
         """kinds of the self-call edges that a class with these bases / own method names / running __init__ would
         redirect to an override (empty set: it redirects nothing)"""
         class Tmp:
@@ -901,11 +906,34 @@ class Gen:
             runtime = [c for c in mro if r["name"] in c.methods]
             if lexical is None or not runtime or runtime[0] is not lexical[0]:
                 k = self.self_dispatch_kind(init_kind)
-                if k == "self-dispatch-subclass" and r["method"] != METHOD_NAMES[-1]:
-                    # a method with a larger name may (now or later) enter r's method through self: chained dispatch
+                if k == "self-dispatch-subclass" and (id(r["cls"]), r["method"]) in self.indirect_entries:
+                    k = "self-dispatch-indirect-entry-subclass"
+                if k == "self-dispatch-subclass" and any(r2["name"] == r["method"] for r2 in self.self_calls):
+                    # r's method can itself be entered through a self-call: the receiver's class travels one level only
                     k = "self-dispatch-chained-subclass"
                 out.add(k)
+                if freeze and k == "self-dispatch-subclass":
+                    # keep it one-level: nothing may call r's method through self from now on
+                    self.frozen_names.add(r["method"])
         return out
+
+    def indirect_entry_names(self, cls, names):
+        """filter the method names that may be entered indirectly (K.m(o, x), f = o.m; f(x)): the receiver's class does
+        not reach the frame then, so a method that calls through self may only be entered this way while the
+        corresponding finding is not stepped over; such entries are remembered for the edge labels"""
+        out = []
+        for n in names:
+            definer = self.find_method(cls, n)[0]
+            has_self_calls = any(r["method"] == n and r["cls"] is definer for r in self.self_calls)
+            if has_self_calls and self.avoided("self-dispatch-indirect-entry-subclass"):
+                continue
+            out.append(n)
+        return out
+
+    def note_indirect_entry(self, cls, n):
+        definer = self.find_method(cls, n)[0]
+        if any(r["method"] == n and r["cls"] is definer for r in self.self_calls):
+            self.indirect_entries.add((id(definer), n))
 
     def any_avoided(self, kinds):
         return any(self.avoided(k) for k in sorted(kinds))
@@ -995,9 +1023,14 @@ class Gen:
                 o = self.construct(sc, cls)
                 names = [n for n in self.method_names(cls) if n in METHOD_NAMES and self.find_method(cls, n)[0].methods[n]["flavour"] == "plain"
                          and not self.diamond_differs(cls, n)]
+                # like K.m(o, x): a method entered through a bound-method value does not get the receiver's class, so
+                # methods that call through self are not entered this way (see the self-dispatch findings)
+                names = self.indirect_entry_names(cls, names)
                 if not names:
                     return True
-                fexpr = "%s.%s" % (o, ch.pick(names))
+                bmn = ch.pick(names)
+                self.note_indirect_entry(cls, bmn)
+                fexpr = "%s.%s" % (o, bmn)
             else:
                 fs = self.visible(sc, "func")
                 if not fs:
@@ -1048,7 +1081,7 @@ class Gen:
                 sc.emit("%s = %s()" % (g, kexpr), "direct", kvia)
             self.call_func_line(sc, g, k.call_kind, "local")
             return True
-        if which == "alias" and not self.no_classes and ch.chance(25) and not self.avoided("stored-class"):
+        if which == "alias" and not self.no_classes and ch.chance(50) and not self.avoided("stored-class"):
             cs = self.visible(sc, "class", lambda c: self.init_info(c)[1] in ("plain", "super", "explicit")
                               and not self.diamond_differs(c, "__init__")
                               and self.class_via(c, "local") != "module-attribute-base")
@@ -1225,13 +1258,13 @@ class Gen:
             names = [n for n in self.method_names(cls) if n in METHOD_NAMES and self.find_method(cls, n)[0].methods[n]["flavour"] == "plain"]
             # K.m(o, x) binds self as an ordinary argument; whether the receiver's class then reaches m's frame follows
             # yet other rules (see the self-dispatch findings), so methods that call through self are not entered this way
-            names = [n for n in names if not any(r["method"] == n and r["cls"] is self.find_method(cls, n)[0]
-                                                 for r in self.self_calls)]
+            names = self.indirect_entry_names(cls, names)
             if not names:
                 return False
             o = self.construct(sc, cls)
             cexpr, cvia = self.ref(sc, cls)
             n = ch.pick(names)
+            self.note_indirect_entry(cls, n)
             cvia = self.class_via(cls, cvia)
             ckind = "diamond-class-attr" if self.diamond_differs(cls, n) else "class-attr-method"
             if self.avoided(ckind, cvia):
@@ -1412,7 +1445,9 @@ class Gen:
                 key = "%s:%d>%s:%d" % (pos[id(r["line"])] + pos[id(dl)])
                 # the receiver's class is only known to the callee frame when the object was built by an __init__
                 k = self.self_dispatch_kind(self.init_info(s_cls)[1])
-                if k == "self-dispatch-subclass" and r["method"] != METHOD_NAMES[-1]:
+                if k == "self-dispatch-subclass" and (id(r["cls"]), r["method"]) in self.indirect_entries:
+                    k = "self-dispatch-indirect-entry-subclass"
+                if k == "self-dispatch-subclass" and any(r2["name"] == r["method"] for r2 in self.self_calls):
                     # the method holding this self-call can itself be entered through a self-call: the receiver's
                     # class travels one level only
                     k = "self-dispatch-chained-subclass"
@@ -1426,7 +1461,8 @@ CLASS_SCENARIOS = {"method", "cbclass", "recv", "objfactory", "classattr", "obj-
 OBJECT_KINDS = {
     "constructor", "constructor-inherited-init", "method", "inherited-method", "overriding-method", "self-method",
     "self-inherited-method", "self-dispatch-subclass", "self-dispatch-noinit-subclass",
-    "self-dispatch-explicit-init-subclass", "self-dispatch-chained-subclass", "stored-class",
+    "self-dispatch-explicit-init-subclass", "self-dispatch-chained-subclass", "self-dispatch-indirect-entry-subclass",
+    "stored-class",
     "callback-constructor", "method-on-field", "method-on-self-field", "method-on-returned-self", "method-on-param", "method-on-returned", "method-on-list-element",
     "callback-bound-method", "stored-field", "stored-field-self", "recursive-method", "super-init", "super-method",
     "explicit-base-init", "staticmethod", "classmethod", "class-attr-method", "diamond-method", "diamond-init",
